@@ -147,6 +147,22 @@ impl Property for C18 {
                 ctx.label("namespace_declaration_beside_xml_space");
             }
         }
+        // (late draws) xml:space values that only LOOK like preserve / default: padded, other case
+        let elements: Vec<usize> = all.iter().copied().filter(|n| sim.model.is_element(*n)).collect();
+        if !elements.is_empty() && src.ratio(1, 3) {
+            let e = elements[src.choice_big(elements.len())];
+            let v = [" preserve", "preserve ", " preserve ", "Preserve", "preserve\n", " default ", "PRESERVE"][src.choice(7)];
+            let op = crate::hist::Op::SetAttribute(e, QName::new(XML_NS, "space"), v.to_string());
+            let eff = crate::props::c05::apply_model(&mut sim.model, &op);
+            sim.grow();
+            let hs = sim.h.clone();
+            let hf = move |i: usize| hs[i].expect("unbound");
+            crate::hist::exec(&mut sim.xot, &op, &hf);
+            if let Err(er) = sim.compare(&eff) {
+                return Verdict::Fail(format!("harness: setting an odd xml:space value: {}", er));
+            }
+            ctx.label("xml_space_value_that_only_looks_like_preserve");
+        }
         let to_go = removable(&sim.model, start);
         let ws_total = sim
             .model
